@@ -201,6 +201,46 @@ pub fn run(ctx: &Ctx) -> i32 {
             }
         }
     }
+    // ---- to_indexed_image: every small image over a pixel alphabet
+    if ctx.wants_family("to-indexed-all") {
+        // alphabet: c1 and c2 opaque, c1 with alpha 254 / 0, an absent opaque colour, c2 with alpha 1
+        let alpha: [[u8; 4]; 6] = [[4, 197, 21, 255], [7, 196, 28, 255], [4, 197, 21, 254], [4, 197, 21, 0], [9, 9, 9, 255], [7, 196, 28, 1]];
+        let shapes: [(u32, u32); 7] = [(1, 1), (2, 1), (1, 2), (3, 1), (2, 2), (4, 1), (1, 4)];
+        let mut f = gen::file(1, 1, &Fmt::Rgba, &[1]);
+        f.frames[0].push(new_palette(0, (0..32u32).map(|i| pal_entry([i as u8 * 3 + 1, 200 - i as u8, i as u8 * 7, 255], None)).collect()));
+        let Loaded::Ok(file) = load(&f.encode()) else { return 2 };
+        let pal = file.palette().unwrap();
+        let mut total = 0u64;
+        for (w, h) in shapes {
+            let n = (w * h) as usize;
+            let imgs = product_vec(&vec![alpha.len(); n]);
+            total += imgs.len() as u64 * 2;
+            for (failure, tr) in [(31u8, Some(30u8)), (0, None)] {
+                let mapper = PaletteMapper::new(pal, MappingOptions { failure, transparent: tr });
+                for v in &imgs {
+                    let case = || format!("{}x{} pixels={:?} failure={} transparent={:?}", w, h, v, failure, tr);
+                    if !ctx.wants("to-indexed-all", &case) {
+                        continue;
+                    }
+                    let mut img = RgbaImage::new(w, h);
+                    let mut expect = Vec::new();
+                    for (i, a) in v.iter().enumerate() {
+                        let p = alpha[*a];
+                        img.put_pixel(i as u32 % w, i as u32 / w, image::Rgba(p));
+                        // the statement: one lookup result per pixel, in row-major order
+                        expect.push(mapper.lookup(p[0], p[1], p[2], p[3]));
+                    }
+                    let ((rw, rh), data) = to_indexed_image(img, &mapper);
+                    ctx.eval(n as u64);
+                    ctx.outcome(hash64(&data));
+                    if (rw, rh) != (w, h) || data != expect {
+                        ctx.violation(Violation { family: "to-indexed-all".into(), case: case(), sig: "to_indexed_image-vs-lookup".into(), detail: format!("got {:?} {:?}, but lookup() per pixel gives {:?}", (rw, rh), data, expect), bytes: None, extra: json!({}) });
+                    }
+                }
+            }
+        }
+        ctx.family("to-indexed-all", total, "to_indexed_image on EVERY image of shape 1x1, 2x1, 1x2, 3x1, 2x2, 4x1, 1x4 over a 6-pixel alphabet (two palette colours opaque, the first with alpha 254 and 0, the second with alpha 1, an absent colour), two option sets; result must be the dimensions and lookup() of each pixel in row-major order (lookup itself is decided by the `mapper` family)", true);
+    }
     ctx.note("built with asefile's `utils` feature on; the repository's own suite runs with it off (MANIFEST.hooks.baseline_off_cmd)");
     ctx.finish()
 }
